@@ -119,15 +119,15 @@ def check_unbalanced_admission(res):
 EXT_PAIRS = [((0,), (1,)), ((1,), (0,)), ((0,), (2, 3)), ((0, 1), (6,)), ((6,), (0, 1)), ((4,), (7,))]
 
 
-def check_extended(res, ia, ib, ns_name, rp):
+def check_extended(res, ia, ib, ns_name, rp, how="system"):
     """ONE EqSystem object evaluated, then extended in place (es += other, bringing new species and elements), then evaluated
     again: the equations are those of the combined system (count, zero at its equilibrium, non-zero when a NEW species is
     doubled — i.e. the new element's conservation is there)"""
     import sympy as sp
 
     A, Bc, C = Ctx(ia, "fwd", 0), Ctx(ib, "fwd", 0), Ctx(tuple(ia) + tuple(ib), "fwd", 0)
-    case = dict(layer="EX", ia=list(ia), ib=list(ib), ns=ns_name, rp=rp)
-    site = "%s|rp=%d|system-extended-in-place" % (ns_name, rp)
+    case = dict(layer="EX", ia=list(ia), ib=list(ib), ns=ns_name, rp=rp, how=how)
+    site = "%s|rp=%d|system-extended-in-place" % (ns_name, rp) + ("" if how == "system" else "|+= " + how)
     res.states += 1
     res.transitions += 3
     res.nontrivial += 1
@@ -135,12 +135,23 @@ def check_extended(res, ia, ib, ns_name, rp):
     try:
         with warnings.catch_warnings():
             warnings.simplefilter("ignore")
-            es = A._mk_eqsys()
-            ns1 = _numsys(ns_name)(es, backend=sp, rref_preserv=bool(rp))
             tr = TRANSFORMS[ns_name][0]
-            ns1.f(transform_exact(tr, A.cvec()), [_R(x) for x in A.cvec()] + [_R(k) for k in A.K])
-            es.composition_balance_vectors()
-            es += Bc._mk_eqsys()
+            if how == "system":
+                es = A._mk_eqsys()
+                ns1 = _numsys(ns_name)(es, backend=sp, rref_preserv=bool(rp))
+                ns1.f(transform_exact(tr, A.cvec()), [_R(x) for x in A.cvec()] + [_R(k) for k in A.K])
+                es.composition_balance_vectors()
+                es += Bc._mk_eqsys()
+            else:
+                # the first system already lists every substance; the equilibria of the second arrive as a list / a generator /
+                # a map object / a list iterator
+                from chempy.equilibria import EqSystem
+
+                full = C._mk_eqsys()
+                es = EqSystem(list(full.rxns[: A.nr]), list(full.substances.values()))
+                es.composition_balance_vectors()
+                more = list(full.rxns[A.nr:])
+                es += {"list": lambda: more, "tuple": lambda: tuple(more), "generator": lambda: (r_ for r_ in more), "map": lambda: map(lambda r_: r_, more), "iterator": lambda: iter(more)}[how]()
             order = list(es.substances)
             if sorted(order) != sorted(C.names) or len(es.rxns) != C.nr:
                 raise ValueError("+= gave substances %r, reactions %d" % (order, len(es.rxns)))
@@ -772,6 +783,9 @@ def run_chunk(chunk, tier):
             for ns_name in NUMSYS:
                 for rp in (0, 1):
                     check_extended(res, ia, ib, ns_name, rp)
+                    if ns_name == "Lin":
+                        for how in ("list", "tuple", "generator", "map", "iterator"):
+                            check_extended(res, ia, ib, ns_name, rp, how)
         res.sample(dict(layer="EX", pairs=[["+".join(M.TAGS[i] for i in a), "+".join(M.TAGS[i] for i in b)] for a, b in EXT_PAIRS]), limit=1)
         return res
     if chunk[0] == "G":
@@ -858,7 +872,7 @@ def replay(case):
     layer = case.get("layer")
     if layer == "EX":
         res = Result()
-        check_extended(res, tuple(case["ia"]), tuple(case["ib"]), case["ns"], case["rp"])
+        check_extended(res, tuple(case["ia"]), tuple(case["ib"]), case["ns"], case["rp"], case.get("how", "system"))
         v = res.violations
         return dict(key=v[0]["key"], what=v[0]["what"], observed=v[0]["observed"], expected=v[0]["expected"]) if v else None
     if layer == "UB":
